@@ -1648,7 +1648,14 @@ def max(*s):
     """
 
     try: return builtins.max(*s)
-    except NotImplementedError:
+    except (NotImplementedError, TypeError) as e:
+        # the built-in compares the arguments from left to right: two 
+        # constants (one of them a matrix) in front of the first variable 
+        # or function raise TypeError before a variable is reached
+        args = s
+        if len(s) == 1 and type(s[0]) in (list, tuple): args = s[0]
+        if type(e) is TypeError and not [a for a in args if 
+            type(a) is variable or type(a) is _function]: raise
         f = _function()
         try: 
             f._cvxterms = [_minmax('max',*s)]
@@ -1689,7 +1696,14 @@ def min(*s):
     """
 
     try: return builtins.min(*s)
-    except NotImplementedError:
+    except (NotImplementedError, TypeError) as e:
+        # the built-in compares the arguments from left to right: two 
+        # constants (one of them a matrix) in front of the first variable 
+        # or function raise TypeError before a variable is reached
+        args = s
+        if len(s) == 1 and type(s[0]) in (list, tuple): args = s[0]
+        if type(e) is TypeError and not [a for a in args if 
+            type(a) is variable or type(a) is _function]: raise
         f = _function()
         try: 
             f._ccvterms = [_minmax('min',*s)]
